@@ -9,6 +9,7 @@ import (
 	"strings"
 
 	"golang.org/x/tools/go/packages"
+	"golang.org/x/tools/go/ssa"
 
 	"verif/internal/core"
 )
@@ -441,9 +442,41 @@ func runC05(c *core.Ctx) core.Meta {
 		})
 	}
 
+	// ---------------- R05.5 the simulation thread starts only at a blocking wait ----------------
+	st5 := c.Rule("R05.5", "whoever wakes the simulation goroutine (a send on Driver.enqueueSignal) returns to the application only on a path that found the command queue empty: the engine never runs while the single application thread is still enqueueing, so the cycle at which a command starts does not depend on host scheduling", 1)
+	c.BuildSSA()
+	pdrv := NewPkgInfo(c, driverPkg)
+	empty := queueEmptyCut()
+	pdrv.Instrs(func(fn *ssa.Function, in ssa.Instruction) {
+		snd, ok := in.(*ssa.Send)
+		if !ok {
+			return
+		}
+		f := core.LoadedField(snd.Chan)
+		if f == nil || core.ShortFieldID(f) != "Driver.enqueueSignal" {
+			return
+		}
+		st5.Instances++
+		c.MarkAnalysed(fn)
+		g := core.BuildGraph(fn, 0, nil)
+		okAll := true
+		for _, sn := range g.NodesWhere(func(n *core.Node) bool { return n.Instr == in }) {
+			g.Walk(core.After(sn, nil), core.WalkOpts{CutEdge: func(n *core.Node, i int) bool { return empty(n, i) }}, func(s core.State) {
+				if _, isR := s.N.Instr.(*ssa.Return); isR {
+					okAll = false
+				}
+			})
+		}
+		st5.Ob(okAll)
+		st5.Sample("%s wakes the simulation goroutine; returns only with the queue empty: %v", core.FuncName(fn), okAll)
+		if !okAll {
+			c.ReportAt("R05.5", fn, in.Pos(), "enqueueSignal:send", core.FuncName(fn)+" wakes the simulation goroutine and can return to the application without having seen the queue empty: the engine then runs concurrently with the application thread, and whether the next command is already queued when the previous one completes (hence the cycle it starts in, every simulated time and counter) depends on host scheduling")
+		}
+	})
+
 	_ = sort.Strings
 	return core.Meta{Level: "other",
-		Explanation: "Structural sources of host-dependent order and values in the code that runs inside a simulation (driver, emulator, decoder, kernels, protocol, sampling, all timing components, timing configuration, NVIDIA model): every range over a map is classified as order-insensitive or justified by a one-line exception (re-validated where possible), host-dependent value sources are enumerated against an exception table whose sinks are checked to have no reader, goroutines/selects and unstable sorts are inventoried.",
+		Explanation: "Structural sources of host-dependent order and values in the code that runs inside a simulation (driver, emulator, decoder, kernels, protocol, sampling, all timing components, timing configuration, NVIDIA model): every range over a map is classified as order-insensitive or justified by a one-line exception (re-validated where possible), host-dependent value sources are enumerated against an exception table whose sinks are checked to have no reader, goroutines/selects and unstable sorts are inventoried, and the simulation goroutine is woken only by a call that blocks until the queue is empty.",
 		NotDecided:  "equality of whole runs across host schedules; akita's engines (outside /repo); the parallel engine; floating-point summation order inside kernels",
 		Assumptions: commonAssumptions}
 }
